@@ -3,14 +3,15 @@ module verif
 go 1.25.7
 
 require (
+	github.com/anyproto/any-store v0.4.7
 	github.com/anyproto/any-sync v0.0.0
 	github.com/cespare/xxhash v1.1.0
 	go.uber.org/zap v1.28.0
+	google.golang.org/protobuf v1.36.11
 )
 
 require (
 	filippo.io/edwards25519 v1.2.0 // indirect
-	github.com/anyproto/any-store v0.4.7 // indirect
 	github.com/anyproto/go-bip39 v1.0.0 // indirect
 	github.com/anyproto/go-chash v0.1.0 // indirect
 	github.com/anyproto/go-slip10 v1.0.1 // indirect
@@ -67,7 +68,6 @@ require (
 	golang.org/x/sys v0.47.0 // indirect
 	golang.org/x/text v0.40.0 // indirect
 	golang.org/x/tools v0.48.0 // indirect
-	google.golang.org/protobuf v1.36.11 // indirect
 	gopkg.in/yaml.v3 v3.0.1 // indirect
 	lukechampine.com/blake3 v1.4.1 // indirect
 	modernc.org/libc v1.66.8 // indirect
